@@ -246,7 +246,9 @@ def order_oracle(ctx, o, first_only=False):
     return fails
 
 
-PWS = [b"k" * 63, b"k" * 64, b"k" * 65, b"m" * 16, b"m" * 24, b"m" * 127, b"m" * 128, b"", b"a", b"pw", b"\xff\xfe\x80abc", "pässø".encode(), "pässwörd".encode(), "日本語 pass".encode(), "🔑key".encode(), b"x" * 8, b"x" * 9, b"y" * 55, b"y" * 56, b"z" * 72, b"z" * 73, b"q" * 200, bytes(range(1, 256))]
+PWS = [b"k" * 63, b"k" * 64, b"k" * 65, b"m" * 16, b"m" * 24, b"m" * 127, b"m" * 128, b"", b"a", b"pw", b"\xff\xfe\x80abc", "pässø".encode(), "pässwörd".encode(), "日本語 pass".encode(), "🔑key".encode(), b"x" * 8, b"x" * 9, b"y" * 55, b"y" * 56, b"z" * 72, b"z" * 73, b"q" * 200, bytes(range(1, 256)),
+       # beyond any internal tile / block buffer, up to what the C library takes (libxcrypt refuses 512 bytes and more)
+       b"r" * 255, b"r" * 256, b"r" * 257, b"s" * 300, b"t" * 400, b"u" * 511]
 
 
 def pair_oracle(ctx, o_pair, first_only=False):
@@ -342,6 +344,36 @@ def pair_oracle(ctx, o_pair, first_only=False):
                             return fails
         finally:
             h.set_backend(orig)
+    # the C back end of scrypt (hashlib / OpenSSL) works for every parameter set it is advertised for — the ones at which the memory
+    # OpenSSL needs crosses a power of two included (the pure-Python back end is too slow there: the reference is hashlib.scrypt called
+    # directly with a generous limit)
+    import hashlib
+
+    sc = H.scrypt
+    if hasattr(hashlib, "scrypt") and "stdlib" in sc.backends and sc.has_backend("stdlib"):
+        orig = sc.get_backend()
+        try:
+            sc.set_backend("stdlib")
+            grid = [(15, 8, 1), (16, 4, 1), (17, 2, 1), (14, 16, 1), (15, 8, 2), (15, 7, 1), (14, 8, 1), (16, 8, 1), (12, 64, 1)] if not ctx.thorough else \
+                   [(ln, r_, p_) for ln in range(10, 18) for r_ in (1, 2, 4, 7, 8, 16, 32) for p_ in (1, 2) if (1 << ln) * r_ <= 1 << 19]
+            for ln, r_, p_ in grid:
+                salt = bytes(rng.randrange(256) for _ in range(8))
+                inp = {"op": "scrypt-stdlib-boundary", "rounds": ln, "block_size": r_, "parallelism": p_, "salt": salt.hex()}
+                want = hashlib.scrypt(b"pw", salt=salt, n=1 << ln, r=r_, p=p_, dklen=32, maxmem=1 << 30)
+                try:
+                    hs = sc.using(rounds=ln, block_size=r_, parallelism=p_, salt=salt).hash("pw")
+                    got = sc.from_string(hs).checksum
+                    ok = got == want and sc.verify("pw", hs)
+                    obs = hs
+                except Exception as e:  # noqa: BLE001
+                    ok, obs = False, errname(e) + ": " + str(e)[:80]
+                o_pair.check("scrypt-stdlib-boundary", ok, inp, obs, "the RFC 7914 key (hashlib.scrypt with a generous memory limit)")
+                if not ok:
+                    fails.append({"input": inp, "observed": obs, "expected": "the RFC 7914 key"})
+                    if first_only:
+                        return fails
+        finally:
+            sc.set_backend(orig)
     return fails
 
 
